@@ -259,6 +259,14 @@ func c05ReopenSession(backend string) (*sm.Session, error) {
 		return nil, err
 	}
 	s.Hooks = []sm.Hook{func(s *sm.Session, op *cs.Op, out *cs.Outcome) *sm.Fail {
+		if out.Err != "" {
+			// a failed operation must not leave anything behind in the handle either: the next
+			// successful write would carry it to the disk
+			if f := ghostProbe(s, "C05", []string{"A", "B"}); f != nil {
+				f.Detail += "  [after the failed " + op.Kind + "]"
+				return f
+			}
+		}
 		if op.Kind != "reopen" {
 			return nil
 		}
@@ -316,7 +324,10 @@ func TestC05(t *testing.T) {
 		check(t, "C05", cases(200, 4000), ev.Scale(16, 24), func(rt *rapid.T) {
 			backend := rapid.SampledFrom([]string{run.Bbolt, run.Bbolt, run.Bbolt, run.BadgerDisk}).Draw(rt, "backend")
 			p := c05Profile()
-			p.Weights = append(p.Weights, sm.W{Kind: "reopen", Weight: 12})
+			// also failing operations (duplicate ids, rejected imports) and reads between the writes:
+			// whatever a failed operation left in memory must not reach the disk with the next success
+			p.BadIds = true
+			p.Weights = append(p.Weights, sm.W{Kind: "reopen", Weight: 12}, sm.W{Kind: "import", Weight: 6}, sm.W{Kind: "count", Weight: 4}, sm.W{Kind: "find", Weight: 3})
 			s, err := c05ReopenSession(backend)
 			if err != nil {
 				rt.Fatalf("open: %v", err)
